@@ -421,6 +421,25 @@ Proof.
       fold (final s' (run_loop force b m' s' rest)). rewrite (IH m' s' ND' Ed' t Hin Hb). apply Ho. exact Hneq.
 Qed.
 
+(* the tasks whose commands were started are exactly the ones reported as not skipped, in the same order *)
+Lemma iter_exec_res m s t tr ex r m' s' : iter force b m s t = ICont _ tr ex r m' s' ->
+  (ex = [] /\ r_skipped r = true) \/ (ex = [tname t] /\ r = {| r_task := tname t; r_skipped := false |}).
+Proof. iter_split s t m; intros H; inversion H; subst; auto. Qed.
+
+Lemma loop_exec_results : forall order m s rs, rr_out D (run_loop force b m s order) = RunOk rs ->
+  rr_exec D (run_loop force b m s order) = map r_task (filter (fun r => negb (r_skipped r)) rs).
+Proof.
+  induction order as [|t rest IH]; intros m s rs H; cbn [RunCache.run_loop] in *.
+  - inversion H. reflexivity.
+  - destruct (iter force b m s t) as [tr ex e|tr ex r m' s'] eqn:E; [discriminate|].
+    rewrite out_wrap in H. rewrite exec_wrap.
+    destruct (rr_out D (run_loop force b m' s' rest)) as [rs'|e] eqn:Eo; [|discriminate]. inversion H; subst rs.
+    rewrite (IH m' s' rs' Eo). cbn [filter].
+    destruct (iter_exec_res m s t tr ex r m' s' E) as [[-> Sk]|[-> ->]].
+    + rewrite Sk. reflexivity.
+    + reflexivity.
+Qed.
+
 End Run.
 
 (* ---------- a whole invocation, and histories of invocations ---------- *)
@@ -571,6 +590,15 @@ Proof.
   destruct (run_decomp force b s order) as [[_ E]|(m0 & s0 & pre & Ed & _ & _ & _ & _ & _ & _ & _ & Eo)].
   - rewrite E in Hout. discriminate.
   - rewrite Eo in Hout. destruct (loop_shape force b order m0 s0 Ed) as [_ _ _ _ Ee]. apply Ee. exact Hout.
+Qed.
+
+Theorem executed_are_the_unskipped force b (s : st) order rs : rr_out D (run force b s order) = RunOk rs ->
+  rr_exec D (run force b s order) = map r_task (filter (fun r => negb (r_skipped r)) rs).
+Proof.
+  intros Hout.
+  destruct (run_decomp force b s order) as [[_ E]|(m0 & s0 & pre & _ & _ & _ & _ & _ & _ & _ & Ee & Eo)].
+  - rewrite E in Hout. discriminate.
+  - rewrite Ee. rewrite Eo in Hout. apply loop_exec_results. exact Hout.
 Qed.
 
 (* with an injective digest ("up to SHA-256 collisions", C04) up to date means: same inputs *)
